@@ -103,9 +103,9 @@ func init() {
 			{Pattern: "css.Hash.*", Levels: "S"}, {Pattern: "html.Hash.*", Levels: "S"},
 		},
 		NotDecided: []string{
-			"EncodeURL/DecodeURL byte-for-byte functional behaviour and agreement with net/url",
+			"EncodeURL/DecodeURL byte-for-byte functional behaviour and agreement with net/url (proved: both only write their own argument, and the tables escape every byte the matching decoder gives a meaning to: '%' and '+' for URLs, '%' for data URIs)",
 			"DataURI payload equality with encoding/base64 and Mediatype agreement with mime.ParseMediaType (external oracles; only memory safety is proved)",
-			"completeness of the ToHash tables (every listed name hashes to its constant); soundness is proved",
+			"completeness of the ToHash tables (every listed name hashes to its constant: the FNV arithmetic over XOR is outside the integer encoding); proved are soundness (a non-zero result names exactly the argument) and the consistency of the generated data: every table entry is a declared constant, every constant occurs in the table, and each constant's offset and length select its own name in the text",
 		},
 		Technique: "deductive verification: Number(b) == closed-form longest-prefix spec over axiomatised digit-run ends; reference-definition postconditions for EqualFold/ToLower/TrimWhitespace/IsAllWhitespace and the whitespace tables; hash soundness; zero-annotation bounds obligations for the remaining helpers; VCs discharged by z3/cvc5",
 	})
@@ -173,7 +173,7 @@ func init() {
 		ID: "C08", Title: "CSS parser emits a well-nested, token-conserving grammar stream",
 		Sel: []Sel{{Pattern: "css.Parser.*", Levels: "SF"}, {Pattern: "css.NewParser", Levels: "S"}},
 		NotDecided: []string{
-			"Values() equals the source's component tokens with the stated whitespace rule for well-formed stylesheets (needs the CSS grammar as specification)",
+			"Values() equals the source's component tokens with the stated whitespace rule for well-formed stylesheets (needs the CSS grammar as specification); proved are the rules it is built from, each where it is implemented: skipped white space and comments are recorded and stay recorded until the token is returned, white space after a combinator token (exactly one of , > + ~) is dropped and kept after anything else, the attribute-selector flag is set by '[' and cleared by the next ']', every bracket token changes the nesting level by exactly one, the kind of block an at-rule opens follows from its (lower-cased) name, a '}' ending a custom property is remembered as the end of the block",
 			"provenance of every Token.Data (input slice in source order, constant, lower-cased copy, concatenation)",
 			"nesting depth (level) never negative while no parse error was reported",
 		},
@@ -184,8 +184,8 @@ func init() {
 		Sel: []Sel{{Pattern: "html.Lexer.*", Levels: "SF"}, {Pattern: "html.NewLexer", Levels: "S"}, {Pattern: "html.NewTemplateLexer", Levels: "S"}, {Pattern: "html.ToHash", Levels: "SF"}, {Pattern: "html.Hash.*", Levels: "S"}},
 		NotDecided: []string{
 			"conformance of the token stream to the HTML construct grammar (one token per construct with the right type)",
-			"raw-text termination at the matching end tag and the script double-escape rules (only memory safety, the unchanged-input frame and token conservation of shiftRawText are proved)",
-			"svg/math subtrees returned as one token; 'a delimited region is never split across tokens'; HasTemplate exactly when a delimiter was crossed (only: HasTemplate implies delimiters are configured)",
+			"raw-text termination at the matching end tag and the script double-escape rules (proved: memory safety, the unchanged-input frame and token conservation of shiftRawText, candidate end-tag names are compared in lower case, the lexer is armed with exactly the tag whose name hashed to a raw-text element, and an empty raw text disarms it)",
+			"svg/math subtrees returned as one token (proved: the quote flag of the subtree scanner is exactly the parity of the double quotes scanned); 'a delimited region is never split across tokens' (proved: in content the template token wins whenever the opening delimiter stands at the token's first byte); HasTemplate exactly when a delimiter was crossed (only: HasTemplate implies delimiters are configured)",
 			"with template delimiters configured an attribute key is proved lower-cased unless a byte of the name equals the first byte of the opening delimiter (a necessary condition for a template region inside the name); that such a region really was entered is not decided",
 			"completeness of the ToHash table on its ten names (soundness is proved)",
 		},
@@ -254,7 +254,7 @@ func init() {
 	registerProp(&PropSpec{
 		ID: "C11", Title: "XML lexer tokenises well-formed XML like a conforming XML reader",
 		Sel: []Sel{{Pattern: "xml.Lexer.*", Levels: "STF"}, {Pattern: "xml.NewLexer", Levels: "S"}},
-		NotDecided: []string{"agreement with encoding/xml on well-formed documents (external oracle)", "DOCTYPE quote/bracket tracking beyond termination at '>' or NUL"},
+		NotDecided: []string{"agreement with encoding/xml on well-formed documents (external oracle); proved are the extents it rests on: tag and attribute names end at XML white space, '=' or the tag's closing delimiter and contain none of them, a quoted value runs to the first occurrence of its own quote, an unquoted one to white space or the tag's end, all four kinds of white space may surround '=', an end tag's Text() carries no trailing white space", "DOCTYPE quote/bracket tracking beyond termination at '>' or NUL"},
 		Technique: "deductive verification: inTag state-machine postconditions, NUL-is-error clause, first-terminator clauses for CDATA/comment on the real lexer; VCs discharged by z3/cvc5",
 	})
 }
